@@ -11,7 +11,7 @@ spec/Dep/ReadyTrace.tla  property-level validation of recorded inv/res histories
 2. The TLC state graph of every scenario gives all schedules at yield-point granularity; each is replayed on the
    real functions under the cooperative scheduler, real return values are compared with the model's (divergences).
 3. The harness' own explorer runs every interleaving of the real code (<= 3 threads), random schedules for 8
-   threads, free-running stress for 16 threads.
+   threads, free-running stress for 16 threads (rounds over 32 task instances each).
 4. Verdict: every recorded history is validated by TLC against ReadyTrace.
 """
 import concurrent.futures
@@ -120,6 +120,47 @@ def schedule_of(labels, fuse):
     return "".join(out)
 
 
+def project_instances(round_events):
+    """A stress round works on several task instances (dependency words) at once, events carry the instance
+    number k: the history of one instance = the events of that instance, in the recorded order."""
+    head = [ev for ev in round_events if "k" not in ev and ev.get("e") == "init"]
+    tail = [ev for ev in round_events if "k" not in ev and ev.get("e") != "init"]
+    inst = {}
+    for ev in round_events:
+        if "k" in ev:
+            inst.setdefault(ev["k"], []).append({a: b for a, b in ev.items() if a != "k"})
+    return [head + inst[k] + tail for k in sorted(inst)] or [round_events]
+
+
+def suspicious(ex):
+    """Cheap pre-screen (NOT a verdict): would ReadyTrace get stuck on this history?  Used only to choose which
+    histories are handed to TLC one by one (cheap localisation) instead of in a large batch."""
+    n, started, finished, ready, pend = 0, set(), set(), 0, {}
+    for ev in ex:
+        e = ev.get("e")
+        if e == "init":
+            n = ev.get("n", 0)
+        elif e == "inv":
+            if ev["i"] in started or pend.get(ev["t"]):
+                return True
+            started.add(ev["i"])
+            pend[ev["t"]] = ev["i"]
+        elif e == "res":
+            if pend.get(ev["t"]) != ev["i"] or ev["r"] not in (0, 1):
+                return True
+            if ev["r"] == 1 and (len(started) != n or ready):
+                return True
+            ready += ev["r"]
+            finished.add(ev["i"])
+            pend[ev["t"]] = 0
+        elif e == "end":
+            if ready != (1 if len(finished) == n else 0):
+                return True
+        else:
+            return True
+    return False
+
+
 def collect(ctx, exe, mode, sc, arg, kind, executions, extra=(), timeout=900):
     """Run the harness; returns the per-execution meta records; appends (scenario, kind, history) to executions."""
     base = os.path.join(ctx.scratch, "%s.%s" % (sc["name"], kind))
@@ -128,6 +169,8 @@ def collect(ctx, exe, mode, sc, arg, kind, executions, extra=(), timeout=900):
     tr, meta = base + ".trace", base + ".meta"
     rc, out, err = ctx.run_cmd([exe, mode, scf, arg, tr, meta] + list(extra), timeout=timeout)
     exs = tracecheck.split_executions(tracecheck.read_ndjson(tr)) if os.path.exists(tr) else []
+    if mode == "stress":
+        exs = [p for e in exs for p in project_instances(e)]
     if rc != 0:
         exs.append([{"e": "Crash", "rc": str(rc), "stderr": err[-300:]}])
     for e in exs:
@@ -144,7 +187,7 @@ def run(ctx):
     explore_limit = 60000 if ctx.quick else 1000000
     byname = {sc["name"]: sc for sc in scen}
 
-    # ---- 1. model level (tiny models, the cost is the JVM: three single-worker TLC processes at a time) ----------
+    # ---- 1. model level (tiny models, the cost is the JVM: two single-worker TLC processes at a time) ----------
     def account(mod, cfg, r, **kw):
         ctx.states += r.distinct
         ctx.transitions += r.generated
@@ -173,7 +216,7 @@ def run(ctx):
             lambda: job_mut(C2, "store"), lambda: job_mut(byname["min3"], "noin")]
     jobs += [(lambda sc=sc: job_graph(sc)) for sc in scen]
     ctx.scratch
-    with concurrent.futures.ThreadPoolExecutor(max_workers=3) as pool:
+    with concurrent.futures.ThreadPoolExecutor(max_workers=2) as pool:
         results = list(pool.map(lambda j: j(), jobs))
     graphs = []
     for res in results:
@@ -237,7 +280,7 @@ def run(ctx):
                 f.write("".join(str(ctx.rng.randrange(n)) for _ in range(5 * n)) + "\n")
         collect(ctx, exe, "replay", sc, schedf, "random", executions)
     for sc in STRESS:
-        collect(ctx, exe, "stress", sc, str(100 if ctx.quick else 5000), "stress", executions, extra=[str(ctx.seed)])
+        collect(ctx, exe, "stress", sc, str(10 if ctx.quick else 300), "stress", executions, extra=[str(ctx.seed)])
 
     # ---- 4. verdict: trace validation -----------------------------------------------------------------------
     ctx.evaluations = len(executions)
@@ -249,7 +292,12 @@ def run(ctx):
     if distinct:
         ctx.sample({"history": distinct[0]})
         ctx.sample({"history": distinct[len(distinct) // 2]})
-    fails = ctx.validate("Dep", "ReadyTrace", "ReadyTrace.cfg", distinct, batch=3000)
+    # TLC decides; the pre-screen only makes the localisation of a rejected history cheap
+    odd = [e for e in distinct if suspicious(e)]
+    clean = [e for e in distinct if not suspicious(e)]
+    ctx.extra["prescreen_suspicious"] = len(odd)
+    fails = ctx.validate("Dep", "ReadyTrace", "ReadyTrace.cfg", odd[:3], batch=1) if odd else []
+    fails += ctx.validate("Dep", "ReadyTrace", "ReadyTrace.cfg", clean, batch=3000)
     ctx.traces = len(executions)
     for f in fails:
         ctx.violation("history of the real update_deps is not 'ready exactly once, after the last input': %s"
